@@ -252,7 +252,7 @@ Proof.
   rewrite (opt_map_ext
              (fun sb : nat * list stmt =>
                 match assoc_get enc (fst sb) with
-                | Some k => Some (Some (int_case_patterns reg k), snd sb)
+                | Some k => Some (Some (Dsl.int_case_patterns reg k), snd sb)
                 | None => None
                 end)
              (fun x => match (fun '(name_, stmts) =>
